@@ -143,7 +143,7 @@ func (p *Prog) Func(rel, name string) *ssa.Function {
 		for _, tt := range []types.Type{t, types.NewPointer(t)} {
 			ms := p.SSA.MethodSets.MethodSet(tt)
 			for i := 0; i < ms.Len(); i++ {
-				if ms.At(i).Obj().Name() == mn {
+				if ms.At(i).Obj().Name() == mn && (ms.At(i).Obj().Exported() || ms.At(i).Obj().Pkg() == sp.Pkg) {
 					if fn := p.SSA.MethodValue(ms.At(i)); fn != nil {
 						// unwrap the promoted/pointer wrapper to the declared method
 						if fn.Synthetic != "" {
